@@ -187,3 +187,15 @@ Definition check_schema (progs : list (list Schema.req)) (sched : list nat) (os 
   ((if sress_eqb (map (fun t => rev (Schema.results t)) (Schema.threads s)) os &&
        forallb (fun x => sopt_eqb (Schema.lookup s (fst x)) (snd x)) final then 0 else 1),
    schema_oracle os final).
+
+(* ---- callers creating fields / tag keys of one metric (or reading its schema) with PrepareFlush and the two halves of
+   Flush between their steps ---- *)
+From LinDBV.C09 Require SchemaFlush.
+Definition check_schema_flush_gen (f1 f2 f3 f4 : bool) (progs : list (list SchemaFlush.sreq)) (events : list nat)
+    (os : list (list (Schema.req * nat))) (final : list (Schema.req * option nat)) : nat * nat :=
+  let s := SchemaFlush.run f1 f2 f3 f4 (SchemaFlush.init progs) events in
+  ((if sress_eqb (map (fun t => rev (SchemaFlush.results t)) (SchemaFlush.threads s)) os
+       && forallb (fun x => sopt_eqb (SchemaFlush.lookup s (fst x)) (snd x)) final
+       && forallb (fun t => match SchemaFlush.todo t with [] => true | _ => false end) (SchemaFlush.threads s) then 0 else 1),
+   schema_oracle os final).
+Definition check_schema_flush := check_schema_flush_gen true true true true.
